@@ -1,6 +1,7 @@
 import MypyVerif.Proofs.VTable
 import MypyVerif.Proofs.ForRange
 import MypyVerif.Proofs.ErrEdges
+import MypyVerif.Model.PyBind
 /-!
 # C05 — mypyc-compiled code behaves like the interpreted source (logic slices)
 
@@ -356,3 +357,38 @@ example : checkBlock ⟨[⟨some 0, [], .false_, false⟩], .goto 2⟩ = false :
 example : run (fun _ => true) [⟨some 0, [], .magic, false⟩] (.goto 2) 0 none = .bad := by decide
 
 end ErrEdges
+
+namespace PyBind
+open ArgMap
+
+/-! ## (c) call binding of compiled functions — correspondence only, plus the F21 witness
+
+The wrappers `emitwrapper.py` generates (and the compile-time mapping of native calls) bind a call like
+CPython binds the *same signature with the positional-only marker dropped*: `Sig.asCompiled`.  The harness
+checks on every run that compiled accept / TypeError is `pyCall s.asCompiled`, and that it equals CPython
+(`pyCall s`, and the interpreted twin) outside the shapes below. -/
+
+/-- the signature as compiled code treats it -/
+def Sig.asCompiled (s : Sig) : Sig := { s with posonly := [], poskw := s.posonly ++ s.poskw }
+
+/-- **not_compiled_binding_eq_cpython** (finding F21).  `def f(a, /, **kw)`; `f(1, a=2)`: CPython binds
+    (`a = 1`, `kw = {'a': 2}`); as compiled code sees the signature, `a` is given by position and by name. -/
+theorem not_compiled_binding_eq_cpython :
+    ¬ (∀ (s : Sig) (acts : List Actual), s.WF → pyCall s.asCompiled acts = pyCall s acts) := by
+  intro h
+  have := h { posonly := [1], poskw := [], ndef := 0, varargs := none, kwonly := [], varkw := some 91 }
+    [.pos, .named 1] (by decide)
+  revert this
+  decide
+
+/-- the benign side (F21b): without `**kwargs` CPython rejects the keyword, compiled code accepts it -/
+example : pyCall { posonly := [1], poskw := [], ndef := 0, varargs := none, kwonly := [], varkw := none } [.named 1]
+      = some (some .posonlyAsKw)
+    ∧ pyCall (Sig.asCompiled { posonly := [1], poskw := [], ndef := 0, varargs := none, kwonly := [], varkw := none }) [.named 1]
+      = some none := by decide
+
+/-- signatures without positional-only parameters are untouched -/
+theorem asCompiled_id (s : Sig) (h : s.posonly = []) : s.asCompiled = s := by
+  cases s; simp_all [Sig.asCompiled]
+
+end PyBind
